@@ -1,6 +1,980 @@
-/- C03 - property theorems (stub: not built yet) -/
+/-
+C03 - Trust comes only from the stores the applicable policy names, typed by scheme.
+Property theorems only; the model is in `Model/C03.lean`.
+-/
 import NotationModel.Model.C03
+set_option linter.unusedSimpArgs false
+set_option linter.unusedVariables false
 
 namespace NotationModel.C03
+
+/-! ### the extracted facts the model is defined in terms of, pinned -/
+
+/-- the scheme switch of `loadX509TrustStores` maps each scheme to the store type the property
+demands, the three types are pairwise distinct, contain no separator, and the loading loop cuts at ":" -/
+theorem facts_pinned :
+    Facts.c03TypeForX509 = Facts.c03TypeCA ∧
+    Facts.c03TypeForSigningAuthority = Facts.c03TypeSigningAuthority ∧
+    Facts.c03TSATypeForX509 = Facts.c03TypeTSA ∧
+    Facts.c03SchemeCases = 2 ∧ Facts.c03SchemeDefaultIsError = true ∧
+    Facts.c03TSASchemeCases = 1 ∧ Facts.c03TSASchemeDefaultIsError = true ∧
+    Facts.c03Types = [Facts.c03TypeCA, Facts.c03TypeSigningAuthority, Facts.c03TypeTSA] ∧
+    Facts.c03TypeCA = ['c', 'a'] ∧
+    Facts.c03TypeSigningAuthority = ['s', 'i', 'g', 'n', 'i', 'n', 'g', 'A', 'u', 't', 'h', 'o', 'r', 'i', 't', 'y'] ∧
+    Facts.c03TypeTSA = ['t', 's', 'a'] ∧
+    Facts.c03Separator = ':' := by decide
+
+/-- the store type the code loads is the one the property demands -/
+theorem storeTypeOf_eq (s : Scheme) : storeTypeOf s = requiredType s := by
+  cases s <;> decide
+
+/-- no store type contains the separator, the two trust-anchor types differ from each other and from tsa -/
+theorem requiredType_facts (s : Scheme) :
+    Facts.c03Separator ∉ requiredType s ∧ requiredType s ≠ Facts.c03TypeTSA ∧
+    requiredType s ∈ Facts.c03Types ∧ requiredType .x509 ≠ requiredType .signingAuthority := by
+  cases s <;> decide
+
+/-! ### `strings.Cut` -/
+
+/-- the value `t:n` -/
+def entry (t n : Text) : Text := t ++ Facts.c03Separator :: n
+
+theorem cut_some_iff (e t n : Text) :
+    cut e = some (t, n) ↔ e = entry t n ∧ Facts.c03Separator ∉ t := by
+  induction e generalizing t with
+  | nil => simp [cut, entry]
+  | cons c rest ih =>
+    unfold cut
+    by_cases hc : c = Facts.c03Separator
+    · subst hc
+      simp only [if_true, Option.some.injEq, Prod.mk.injEq]
+      constructor
+      · rintro ⟨rfl, rfl⟩; simp [entry]
+      · rintro ⟨he, hn⟩
+        cases t with
+        | nil => simp [entry] at he; exact ⟨rfl, he⟩
+        | cons a t' =>
+          simp [entry] at he
+          exact absurd (by simp [he.1]) hn
+    · simp only [hc, if_false]
+      cases hr : cut rest with
+      | none =>
+        simp only [false_iff, reduceCtorEq]
+        rintro ⟨he, hn⟩
+        cases t with
+        | nil => simp [entry] at he; exact hc he.1
+        | cons a t' =>
+          simp only [entry, List.cons_append, List.cons.injEq] at he
+          have := (ih t').2 ⟨he.2, fun h => hn (List.mem_cons_of_mem _ h)⟩
+          rw [hr] at this; cases this
+      | some p =>
+        obtain ⟨t0, n0⟩ := p
+        simp only [Option.some.injEq, Prod.mk.injEq]
+        constructor
+        · rintro ⟨rfl, rfl⟩
+          have := (ih t0).1 hr
+          exact ⟨by simp [entry, this.1], by simp [Ne.symm hc, this.2]⟩
+        · rintro ⟨he, hn⟩
+          cases t with
+          | nil => simp [entry] at he; exact absurd he.1 hc
+          | cons a t' =>
+            simp only [entry, List.cons_append, List.cons.injEq] at he
+            have := (ih t').2 ⟨he.2, fun h => hn (List.mem_cons_of_mem _ h)⟩
+            rw [hr] at this
+            simp only [Option.some.injEq, Prod.mk.injEq] at this
+            exact ⟨by rw [he.1, this.1], this.2⟩
+
+theorem cut_none_iff (e : Text) : cut e = none ↔ Facts.c03Separator ∉ e := by
+  induction e with
+  | nil => simp [cut]
+  | cons c rest ih =>
+    unfold cut
+    by_cases hc : c = Facts.c03Separator
+    · simp [hc]
+    · cases hr : cut rest with
+      | none => simp [hc, Ne.symm hc, ih.1 hr]
+      | some p =>
+        have : ¬ (Facts.c03Separator ∉ rest) := fun h => by rw [ih.2 h] at hr; cases hr
+        simp only [hc, if_false, reduceCtorEq, false_iff, List.mem_cons, not_or, not_and]
+        intro _; exact this
+
+/-- membership in the wanted names = some listed value cuts into (want, n) -/
+theorem mem_wantedNames (want : Text) (l : List Text) (n : Text) :
+    n ∈ wantedNames want l ↔ ∃ e ∈ l, cut e = some (want, n) := by
+  unfold wantedNames
+  rw [List.mem_filterMap]
+  constructor
+  · rintro ⟨e, he, h⟩
+    refine ⟨e, he, ?_⟩
+    cases hc : cut e with
+    | none => simp [hc] at h
+    | some p =>
+      obtain ⟨t, n'⟩ := p
+      simp only [hc] at h
+      by_cases ht : want = t
+      · simp [ht] at h; simp [ht, h]
+      · simp [ht] at h
+  · rintro ⟨e, he, h⟩
+    exact ⟨e, he, by simp [h]⟩
+
+/-- for a type without separator: `n` is wanted iff the value `want:n` is in the list -/
+theorem mem_wantedNames_entry (want : Text) (hw : Facts.c03Separator ∉ want) (l : List Text) (n : Text) :
+    n ∈ wantedNames want l ↔ entry want n ∈ l := by
+  rw [mem_wantedNames]
+  constructor
+  · rintro ⟨e, he, h⟩
+    rw [((cut_some_iff e want n).1 h).1] at he; exact he
+  · intro h
+    exact ⟨_, h, (cut_some_iff _ want n).2 ⟨rfl, hw⟩⟩
+
+theorem wantedNames_cons_wanted (want e n : Text) (rest : List Text) (h : cut e = some (want, n)) :
+    wantedNames want (e :: rest) = n :: wantedNames want rest := by
+  simp [wantedNames, List.filterMap_cons, h]
+
+theorem wantedNames_cons_other (want e t n : Text) (rest : List Text) (h : cut e = some (t, n)) (ht : want ≠ t) :
+    wantedNames want (e :: rest) = wantedNames want rest := by
+  simp [wantedNames, List.filterMap_cons, h, ht]
+
+theorem wantedNames_cons_none (want e : Text) (rest : List Text) (h : cut e = none) :
+    wantedNames want (e :: rest) = wantedNames want rest := by
+  simp [wantedNames, List.filterMap_cons, h]
+
+theorem wantedNames_sublist_cons (want e : Text) (rest : List Text) :
+    (wantedNames want rest).Sublist (wantedNames want (e :: rest)) := by
+  unfold wantedNames
+  exact List.Sublist.filterMap _ (List.sublist_cons_self e rest)
+
+/-! ### the loop of `loadX509TrustStoresWithType`, for lists of any length -/
+
+/-- every call is for the wanted type and a listed, not yet processed value -/
+theorem loadLoop_calls (w : World) (want : Text) (l p : List Text) :
+    ∀ c ∈ (loadLoop w want l p).1, c.ty = want ∧ entry want c.name ∈ l ∧ entry want c.name ∉ p ∧
+      cut (entry want c.name) = some (want, c.name) := by
+  induction l generalizing p with
+  | nil => simp [loadLoop]
+  | cons e rest ih =>
+    intro c hc
+    unfold loadLoop at hc
+    by_cases hp : p.contains e = true
+    · simp only [hp, if_true] at hc
+      obtain ⟨h1, h2, h3, h4⟩ := ih p c hc
+      exact ⟨h1, List.mem_cons_of_mem _ h2, h3, h4⟩
+    · simp only [hp, Bool.false_eq_true, if_false] at hc
+      cases hcut : cut e with
+      | none => simp [hcut] at hc
+      | some tn =>
+        obtain ⟨t, n⟩ := tn
+        simp only [hcut] at hc
+        by_cases ht : want = t
+        · subst ht
+          have he : e = entry want n := ((cut_some_iff e want n).1 hcut).1
+          simp only [ne_eq, not_true_eq_false, if_false] at hc
+          cases hw : w want n with
+          | none =>
+            simp only [hw, List.mem_singleton] at hc
+            subst hc
+            exact ⟨rfl, by simp [← he], by simpa [← he] using hp, by rw [← he]; exact hcut⟩
+          | some cs =>
+            simp only [hw, List.mem_cons] at hc
+            rcases hc with hc | hc
+            · subst hc
+              exact ⟨rfl, by simp [← he], by simpa [← he] using hp, by rw [← he]; exact hcut⟩
+            · obtain ⟨h1, h2, h3, h4⟩ := ih (e :: p) c hc
+              exact ⟨h1, List.mem_cons_of_mem _ h2, fun h => h3 (List.mem_cons_of_mem _ h), h4⟩
+        · simp only [ne_eq, ht, not_false_eq_true, if_true] at hc
+          obtain ⟨h1, h2, h3, h4⟩ := ih p c hc
+          exact ⟨h1, List.mem_cons_of_mem _ h2, h3, h4⟩
+
+/-- case analysis of one round of the loop, as an induction principle: the five ways an
+iteration can go (value processed already / no separator / other type / load fails / load succeeds) -/
+theorem loadLoop_induct (w : World) (want : Text)
+    (motive : List Text → List Text → List Call × Option (List CertId) → Prop)
+    (nil : ∀ p, motive [] p ([], some []))
+    (processed : ∀ e rest p, p.contains e = true → motive rest p (loadLoop w want rest p) →
+      motive (e :: rest) p (loadLoop w want rest p))
+    (nosep : ∀ e rest p, p.contains e = false → cut e = none → motive (e :: rest) p ([], none))
+    (other : ∀ e rest p t n, p.contains e = false → cut e = some (t, n) → want ≠ t →
+      motive rest p (loadLoop w want rest p) → motive (e :: rest) p (loadLoop w want rest p))
+    (fail : ∀ e rest p n, p.contains e = false → cut e = some (want, n) → w want n = none →
+      motive (e :: rest) p ([⟨want, n⟩], none))
+    (ok : ∀ e rest p n cs, p.contains e = false → cut e = some (want, n) → w want n = some cs →
+      motive rest (e :: p) (loadLoop w want rest (e :: p)) →
+      motive (e :: rest) p (⟨want, n⟩ :: (loadLoop w want rest (e :: p)).1,
+        (loadLoop w want rest (e :: p)).2.map (cs ++ ·))) :
+    ∀ l p, motive l p (loadLoop w want l p) := by
+  intro l
+  induction l with
+  | nil => intro p; simpa [loadLoop] using nil p
+  | cons e rest ih =>
+    intro p
+    unfold loadLoop
+    by_cases hp : p.contains e = true
+    · simp only [hp, if_true]; exact processed e rest p hp (ih p)
+    · have hp' : p.contains e = false := by simpa using hp
+      simp only [hp, Bool.false_eq_true, if_false]
+      cases hcut : cut e with
+      | none => exact nosep e rest p hp' hcut
+      | some tn =>
+        obtain ⟨t, n⟩ := tn
+        by_cases ht : want = t
+        · subst ht
+          simp only [ne_eq, not_true_eq_false, if_false]
+          cases hw : w want n with
+          | none => exact fail e rest p n hp' hcut hw
+          | some cs => exact ok e rest p n cs hp' hcut hw (ih (e :: p))
+        · simp only [ne_eq, ht, not_false_eq_true, if_true]
+          exact other e rest p t n hp' hcut ht (ih p)
+
+/-- no store is loaded twice -/
+theorem loadLoop_nodup (w : World) (want : Text) (l p : List Text) :
+    ((loadLoop w want l p).1.map (·.name)).Nodup := by
+  induction l generalizing p with
+  | nil => simp [loadLoop]
+  | cons e rest ih =>
+    unfold loadLoop
+    by_cases hp : p.contains e = true
+    · simp only [hp, if_true]; exact ih p
+    · simp only [hp, Bool.false_eq_true, if_false]
+      cases hcut : cut e with
+      | none => simp
+      | some tn =>
+        obtain ⟨t, n⟩ := tn
+        by_cases ht : want = t
+        · subst ht
+          simp only [ne_eq, not_true_eq_false, if_false]
+          cases hw : w want n with
+          | none => simp
+          | some cs =>
+            simp only [List.map_cons, List.nodup_cons]
+            refine ⟨?_, ih (e :: p)⟩
+            intro hmem
+            obtain ⟨c, hc, hcn⟩ := List.mem_map.1 hmem
+            have := (loadLoop_calls w want rest (e :: p) c hc).2.2.1
+            apply this
+            have he : e = entry want n := ((cut_some_iff e want n).1 hcut).1
+            rw [hcn, ← he]; exact List.mem_cons_self
+        · simp only [ne_eq, ht, not_false_eq_true, if_true]; exact ih p
+
+/-- the loads follow the order of the list -/
+theorem loadLoop_sublist (w : World) (want : Text) :
+    ∀ l p, ((loadLoop w want l p).1.map (·.name)).Sublist (wantedNames want l) := by
+  apply loadLoop_induct w want (fun l p r => (r.1.map (·.name)).Sublist (wantedNames want l))
+  · intro p; simp [wantedNames]
+  · intro e rest p _ ih; exact ih.trans (wantedNames_sublist_cons want e rest)
+  · intro e rest p _ _; simp
+  · intro e rest p t n _ hc ht ih; rw [wantedNames_cons_other want e t n rest hc ht]; exact ih
+  · intro e rest p n _ hc _; rw [wantedNames_cons_wanted want e n rest hc]; simp
+  · intro e rest p n cs _ hc _ ih
+    rw [wantedNames_cons_wanted want e n rest hc]
+    simpa using ih
+
+theorem all_dropLast_cons {α : Type} (q : α → Prop) (a : α) (l : List α) (ha : q a)
+    (hl : ∀ x ∈ l.dropLast, q x) : ∀ x ∈ (a :: l).dropLast, q x := by
+  cases l with
+  | nil => simp
+  | cons b l' =>
+    intro x hx
+    rw [List.dropLast_cons_of_ne_nil (by simp)] at hx
+    rcases List.mem_cons.1 hx with h | h
+    · subst h; exact ha
+    · exact hl x h
+
+/-- the loop stops at the first load that fails: every call but the last succeeded, and when no
+error is returned every call succeeded -/
+theorem loadLoop_prefix_ok (w : World) (want : Text) :
+    ∀ l p, (∀ c ∈ (loadLoop w want l p).1.dropLast, (w want c.name).isSome = true) ∧
+      ((loadLoop w want l p).2.isSome = true → ∀ c ∈ (loadLoop w want l p).1, (w want c.name).isSome = true) := by
+  apply loadLoop_induct w want (fun l p r => (∀ c ∈ r.1.dropLast, (w want c.name).isSome = true) ∧
+      (r.2.isSome = true → ∀ c ∈ r.1, (w want c.name).isSome = true))
+  · intro p; simp
+  · intro e rest p _ ih; exact ih
+  · intro e rest p _ _; simp
+  · intro e rest p t n _ _ _ ih; exact ih
+  · intro e rest p n _ _ _; simp
+  · intro e rest p n cs _ _ hw ih
+    refine ⟨all_dropLast_cons (fun (c : Call) => (w want c.name).isSome = true) _ _ (by simp [hw]) ih.1, ?_⟩
+    intro hs c hc
+    rcases List.mem_cons.1 hc with h | h
+    · subst h; simp [hw]
+    · refine ih.2 ?_ c h
+      cases h2 : (loadLoop w want rest (e :: p)).2 <;> simp [h2] at hs ⊢
+
+/-- when an error is returned, either a value had no separator or the last call is a load that failed -/
+theorem loadLoop_error (w : World) (want : Text) :
+    ∀ l p, (loadLoop w want l p).2 = none →
+      (∃ e ∈ l, e ∉ p ∧ cut e = none) ∨
+      (∃ c, (loadLoop w want l p).1.getLast? = some c ∧ w want c.name = none) := by
+  apply loadLoop_induct w want (fun l p r => r.2 = none →
+      (∃ e ∈ l, e ∉ p ∧ cut e = none) ∨ (∃ c, r.1.getLast? = some c ∧ w want c.name = none))
+  · intro p h; simp at h
+  · intro e rest p _ ih h
+    rcases ih h with ⟨e', h1, h2, h3⟩ | h'
+    · exact .inl ⟨e', List.mem_cons_of_mem _ h1, h2, h3⟩
+    · exact .inr h'
+  · intro e rest p hp hc _
+    exact .inl ⟨e, List.mem_cons_self, by simpa using hp, hc⟩
+  · intro e rest p t n _ _ _ ih h
+    rcases ih h with ⟨e', h1, h2, h3⟩ | h'
+    · exact .inl ⟨e', List.mem_cons_of_mem _ h1, h2, h3⟩
+    · exact .inr h'
+  · intro e rest p n _ _ hw _
+    exact .inr ⟨⟨want, n⟩, by simp, hw⟩
+  · intro e rest p n cs _ hcut _ ih h
+    have h' : (loadLoop w want rest (e :: p)).2 = none := by
+      cases h2 : (loadLoop w want rest (e :: p)).2 <;> simp [h2] at h ⊢
+    rcases ih h' with ⟨e', h1, h2, h3⟩ | ⟨c, h1, h2⟩
+    · exact .inl ⟨e', List.mem_cons_of_mem _ h1, fun hm => h2 (List.mem_cons_of_mem _ hm), h3⟩
+    · refine .inr ⟨c, ?_, h2⟩
+      cases hl : (loadLoop w want rest (e :: p)).1 with
+      | nil => simp [hl] at h1
+      | cons b l' => rw [hl] at h1; simpa [List.getLast?_cons_cons] using h1
+
+/-- when no error is returned: every value has a separator, every listed store of the wanted
+type that was not processed before has been loaded, and the trusted set is exactly what those loads returned -/
+theorem loadLoop_ok (w : World) (want : Text) :
+    ∀ l p, ∀ ts, (loadLoop w want l p).2 = some ts →
+      (∀ e ∈ l, e ∉ p → ∃ t n, cut e = some (t, n) ∧ (t = want → (⟨want, n⟩ : Call) ∈ (loadLoop w want l p).1)) ∧
+      (∀ x, x ∈ ts ↔ ∃ c ∈ (loadLoop w want l p).1, ∃ cs, w want c.name = some cs ∧ x ∈ cs) := by
+  apply loadLoop_induct w want (fun l p r => ∀ ts, r.2 = some ts →
+      (∀ e ∈ l, e ∉ p → ∃ t n, cut e = some (t, n) ∧ (t = want → (⟨want, n⟩ : Call) ∈ r.1)) ∧
+      (∀ x, x ∈ ts ↔ ∃ c ∈ r.1, ∃ cs, w want c.name = some cs ∧ x ∈ cs))
+  · intro p ts h
+    simp only [Option.some.injEq] at h; subst h; simp
+  · intro e rest p hp ih ts h
+    obtain ⟨h1, h2⟩ := ih ts h
+    refine ⟨?_, h2⟩
+    intro e' he' hn
+    rcases List.mem_cons.1 he' with heq | hmem
+    · subst heq; exact absurd (List.contains_iff_mem.1 hp) hn
+    · exact h1 e' hmem hn
+  · intro e rest p _ _ ts h; simp at h
+  · intro e rest p t n _ hc ht ih ts h
+    obtain ⟨h1, h2⟩ := ih ts h
+    refine ⟨?_, h2⟩
+    intro e' he' hn
+    rcases List.mem_cons.1 he' with heq | hmem
+    · subst heq; exact ⟨t, n, hc, fun h => absurd h.symm ht⟩
+    · exact h1 e' hmem hn
+  · intro e rest p n _ _ _ ts h; simp at h
+  · intro e rest p n cs hp hc hw ih ts h
+    cases h2 : (loadLoop w want rest (e :: p)).2 with
+    | none => simp [h2] at h
+    | some ts' =>
+      simp only [h2, Option.map_some, Option.some.injEq] at h
+      obtain ⟨h1, h3⟩ := ih ts' h2
+      constructor
+      · intro e' he' hn
+        rcases List.mem_cons.1 he' with heq | hmem
+        · subst heq; exact ⟨want, n, hc, fun _ => List.mem_cons_self⟩
+        · by_cases hee : e' = e
+          · subst hee; exact ⟨want, n, hc, fun _ => List.mem_cons_self⟩
+          · obtain ⟨t, n', h4, h5⟩ := h1 e' hmem (by simp [hee, hn])
+            exact ⟨t, n', h4, fun ht => List.mem_cons_of_mem _ (h5 ht)⟩
+      · intro x
+        subst h
+        simp only [List.mem_append, List.mem_cons, exists_eq_or_imp, hw, Option.some.injEq, exists_eq_left', h3 x]
+
+/-- conversely: if every (unprocessed) value has a separator and every (unprocessed) listed
+store of the wanted type loads, no error is returned -/
+theorem loadLoop_ok_if (w : World) (want : Text) :
+    ∀ l p, (∀ e ∈ l, e ∉ p → (cut e).isSome = true) →
+      (∀ e ∈ l, e ∉ p → ∀ n, cut e = some (want, n) → (w want n).isSome = true) →
+      (loadLoop w want l p).2.isSome = true := by
+  apply loadLoop_induct w want (fun l p r => (∀ e ∈ l, e ∉ p → (cut e).isSome = true) →
+      (∀ e ∈ l, e ∉ p → ∀ n, cut e = some (want, n) → (w want n).isSome = true) → r.2.isSome = true)
+  · intro p _ _; simp
+  · intro e rest p _ ih h1 h2
+    exact ih (fun e' he' => h1 e' (List.mem_cons_of_mem _ he')) (fun e' he' => h2 e' (List.mem_cons_of_mem _ he'))
+  · intro e rest p hp hc h1 _
+    have := h1 e List.mem_cons_self (by simpa using hp)
+    simp [hc] at this
+  · intro e rest p t n _ _ _ ih h1 h2
+    exact ih (fun e' he' => h1 e' (List.mem_cons_of_mem _ he')) (fun e' he' => h2 e' (List.mem_cons_of_mem _ he'))
+  · intro e rest p n hp hc hw _ h2
+    have := h2 e List.mem_cons_self (by simpa using hp) n hc
+    simp [hw] at this
+  · intro e rest p n cs _ _ _ ih h1 h2
+    have := ih (fun e' he' hn => h1 e' (List.mem_cons_of_mem _ he') (fun h => hn (List.mem_cons_of_mem _ h)))
+      (fun e' he' hn => h2 e' (List.mem_cons_of_mem _ he') (fun h => hn (List.mem_cons_of_mem _ h)))
+    cases h3 : (loadLoop w want rest (e :: p)).2 <;> simp [h3] at this ⊢
+
+/-- the loop consults the world only at (want, listed name): worlds that agree there are
+indistinguishable -/
+theorem loadLoop_congr (w w' : World) (want : Text) (l : List Text)
+    (h : ∀ n ∈ wantedNames want l, w want n = w' want n) :
+    ∀ p, loadLoop w want l p = loadLoop w' want l p := by
+  induction l with
+  | nil => intro p; simp [loadLoop]
+  | cons e rest ih =>
+    intro p
+    have hrest : ∀ n ∈ wantedNames want rest, w want n = w' want n :=
+      fun n hn => h n ((wantedNames_sublist_cons want e rest).subset hn)
+    unfold loadLoop
+    by_cases hp : p.contains e = true
+    · simp only [hp, if_true]; exact ih hrest p
+    · simp only [hp, Bool.false_eq_true, if_false]
+      cases hcut : cut e with
+      | none => rfl
+      | some tn =>
+        obtain ⟨t, n⟩ := tn
+        by_cases ht : want = t
+        · subst ht
+          have hn : w want n = w' want n := h n (by rw [wantedNames_cons_wanted want e n rest hcut]; exact List.mem_cons_self)
+          simp only [ne_eq, not_true_eq_false, if_false, ← hn, ih hrest (e :: p)]
+        · simp only [ne_eq, ht, not_false_eq_true, if_true]; exact ih hrest p
+
+/-! ### `verifyAuthenticity` and the authenticity decision -/
+
+theorem authentic_iff (chain trusted : List CertId) :
+    authentic chain trusted = true ↔ ∃ c ∈ chain, c ∈ trusted := by
+  unfold authentic
+  simp only [Bool.and_eq_true, Bool.not_eq_true', List.any_eq_true, List.contains_iff_mem]
+  constructor
+  · rintro ⟨_, c, h1, h2⟩; exact ⟨c, h1, h2⟩
+  · rintro ⟨c, h1, h2⟩
+    refine ⟨?_, c, h1, h2⟩
+    cases trusted with
+    | nil => cases h2
+    | cons a t => rfl
+
+theorem authenticity_calls (w : World) (scheme : Scheme) (chain : List CertId) (l : List Text) :
+    (authenticity w scheme chain l).2 = (loadLoop w (requiredType scheme) l []).1 := by
+  unfold authenticity loadStores
+  rw [storeTypeOf_eq]
+  rcases h : loadLoop w (requiredType scheme) l [] with ⟨calls, r⟩
+  cases r <;> rfl
+
+theorem confers_iff (w : World) (want : Text) (chain : List CertId) (n : Text) :
+    confers w want chain n = true ↔ ∃ cs, w want n = some cs ∧ ∃ c ∈ chain, c ∈ cs := by
+  unfold confers
+  cases h : w want n with
+  | none => simp
+  | some cs => simp [List.any_eq_true, List.contains_iff_mem]
+
+/-- **the authenticity decision, exactly**: it passes iff every value of the list has a separator,
+every listed store of the required type loads, and one of them holds a certificate of the chain -/
+theorem auth_pass_iff (w : World) (scheme : Scheme) (chain : List CertId) (l : List Text) :
+    (authenticity w scheme chain l).1 = true ↔
+      (∀ e ∈ l, (cut e).isSome = true) ∧
+      (∀ n ∈ wantedNames (requiredType scheme) l, (w (requiredType scheme) n).isSome = true) ∧
+      (∃ n ∈ wantedNames (requiredType scheme) l, confers w (requiredType scheme) chain n = true) := by
+  have hcalls := loadLoop_calls w (requiredType scheme) l []
+  have hok := loadLoop_ok w (requiredType scheme) l []
+  have hpre := loadLoop_prefix_ok w (requiredType scheme) l []
+  have hif := loadLoop_ok_if w (requiredType scheme) l []
+  unfold authenticity loadStores
+  rw [storeTypeOf_eq]
+  generalize requiredType scheme = want at *
+  rcases h : loadLoop w want l [] with ⟨calls, r⟩
+  rw [h] at hcalls hok hpre hif
+  simp only at hcalls hok hpre hif
+  -- a wanted name has been loaded when no error was returned
+  have loaded : ∀ ts, r = some ts → ∀ n ∈ wantedNames want l, (⟨want, n⟩ : Call) ∈ calls := by
+    intro ts hr n hn
+    obtain ⟨e, he, hc⟩ := (mem_wantedNames want l n).1 hn
+    obtain ⟨t', n', h1, h2⟩ := (hok ts hr).1 e he (by simp)
+    rw [hc] at h1
+    simp only [Option.some.injEq, Prod.mk.injEq] at h1
+    obtain ⟨rfl, rfl⟩ := h1
+    exact h2 rfl
+  cases r with
+  | none =>
+    simp only [Bool.false_eq_true, false_iff, not_and, not_exists]
+    intro h1 h2
+    have := hif (fun e he _ => h1 e he)
+      (fun e he _ n hc => h2 n ((mem_wantedNames want l n).2 ⟨e, he, hc⟩))
+    simp at this
+  | some ts =>
+    simp only
+    rw [authentic_iff]
+    obtain ⟨hsep, hts⟩ := hok ts rfl
+    constructor
+    · rintro ⟨c, hc, hct⟩
+      obtain ⟨call, hcall, cs, hw, hx⟩ := (hts c).1 hct
+      obtain ⟨_, hmem, _, hcut⟩ := hcalls call hcall
+      refine ⟨?_, ?_, call.name, (mem_wantedNames want l _).2 ⟨_, hmem, hcut⟩, (confers_iff _ _ _ _).2 ⟨cs, hw, c, hc, hx⟩⟩
+      · intro e he
+        obtain ⟨t, n, h1, _⟩ := hsep e he (by simp)
+        simp [h1]
+      · intro n hn
+        exact hpre.2 rfl _ (loaded ts rfl n hn)
+    · rintro ⟨_, _, n, hn, hconf⟩
+      obtain ⟨cs, hw, c, hc, hx⟩ := (confers_iff _ _ _ _).1 hconf
+      exact ⟨c, hc, (hts c).2 ⟨⟨want, n⟩, loaded ts rfl n hn, cs, hw, hx⟩⟩
+
+/-- a pass has consulted every listed store of the required type -/
+theorem auth_pass_loaded_all (w : World) (scheme : Scheme) (chain : List CertId) (l : List Text)
+    (h : (authenticity w scheme chain l).1 = true) :
+    ∀ n ∈ wantedNames (requiredType scheme) l, (⟨requiredType scheme, n⟩ : Call) ∈ (authenticity w scheme chain l).2 := by
+  rw [authenticity_calls]
+  have hok := loadLoop_ok w (requiredType scheme) l []
+  unfold authenticity loadStores at h
+  rw [storeTypeOf_eq] at h
+  generalize requiredType scheme = want at *
+  rcases hl : loadLoop w want l [] with ⟨calls, r⟩
+  rw [hl] at hok h
+  cases r with
+  | none => simp at h
+  | some ts =>
+    intro n hn
+    obtain ⟨e, he, hc⟩ := (mem_wantedNames want l n).1 hn
+    obtain ⟨t', n', h1, h2⟩ := (hok ts rfl).1 e he (by simp)
+    rw [hc] at h1
+    simp only [Option.some.injEq, Prod.mk.injEq] at h1
+    obtain ⟨rfl, rfl⟩ := h1
+    exact h2 rfl
+
+/-! ### the applicable statement -/
+
+theorem selectLoop_spec (repo : Text) : ∀ (stmts : List Stmt) (acc : Option Stmt × Option Stmt),
+    ((selectLoop repo stmts acc).1 = acc.1 ∨
+      ∃ s ∈ stmts, (selectLoop repo stmts acc).1 = some s ∧ wildcardScope ∈ s.scopes) ∧
+    ((selectLoop repo stmts acc).2 = acc.2 ∨
+      ∃ s ∈ stmts, (selectLoop repo stmts acc).2 = some s ∧ wildcardScope ∉ s.scopes ∧ repo ∈ s.scopes) ∧
+    ((selectLoop repo stmts acc).1 = none → ∀ s ∈ stmts, wildcardScope ∉ s.scopes) ∧
+    ((selectLoop repo stmts acc).2 = none → ∀ s ∈ stmts, wildcardScope ∈ s.scopes ∨ repo ∉ s.scopes) := by
+  intro stmts
+  induction stmts with
+  | nil => intro acc; simp [selectLoop]
+  | cons s rest ih =>
+    intro acc
+    obtain ⟨wild, exact⟩ := acc
+    unfold selectLoop
+    by_cases hw : s.scopes.contains wildcardScope = true
+    · have hw' := List.contains_iff_mem.1 hw
+      simp only [hw, if_true]
+      obtain ⟨h1, h2, h3, h4⟩ := ih (some s, exact)
+      refine ⟨?_, ?_, ?_, ?_⟩
+      · rcases h1 with h | ⟨s', hs', h, hh⟩
+        · exact .inr ⟨s, List.mem_cons_self, h, hw'⟩
+        · exact .inr ⟨s', List.mem_cons_of_mem _ hs', h, hh⟩
+      · rcases h2 with h | ⟨s', hs', h, hh⟩
+        · exact .inl h
+        · exact .inr ⟨s', List.mem_cons_of_mem _ hs', h, hh⟩
+      · intro hn
+        rcases h1 with h | ⟨s', hs', h, hh⟩
+        · rw [hn] at h; cases h
+        · exact absurd (h3 hn s' hs') (fun x => x hh)
+      · intro hn s' hs'
+        rcases List.mem_cons.1 hs' with rfl | hm
+        · exact .inl hw'
+        · exact h4 hn s' hm
+    · have hw' : wildcardScope ∉ s.scopes := fun h => hw (List.contains_iff_mem.2 h)
+      simp only [hw, Bool.false_eq_true, if_false]
+      by_cases hr : s.scopes.contains repo = true
+      · have hr' := List.contains_iff_mem.1 hr
+        simp only [hr, if_true]
+        obtain ⟨h1, h2, h3, h4⟩ := ih (wild, some s)
+        refine ⟨?_, ?_, ?_, ?_⟩
+        · rcases h1 with h | ⟨s', hs', h, hh⟩
+          · exact .inl h
+          · exact .inr ⟨s', List.mem_cons_of_mem _ hs', h, hh⟩
+        · rcases h2 with h | ⟨s', hs', h, hh⟩
+          · exact .inr ⟨s, List.mem_cons_self, h, hw', hr'⟩
+          · exact .inr ⟨s', List.mem_cons_of_mem _ hs', h, hh⟩
+        · intro hn s' hs'
+          rcases List.mem_cons.1 hs' with rfl | hm
+          · exact hw'
+          · exact h3 hn s' hm
+        · intro hn
+          rcases h2 with h | ⟨s', hs', h, hh⟩
+          · rw [hn] at h; cases h
+          · rw [hn] at h; cases h
+      · have hr' : repo ∉ s.scopes := fun h => hr (List.contains_iff_mem.2 h)
+        simp only [hr, Bool.false_eq_true, if_false]
+        obtain ⟨h1, h2, h3, h4⟩ := ih (wild, exact)
+        refine ⟨?_, ?_, ?_, ?_⟩
+        · rcases h1 with h | ⟨s', hs', h, hh⟩
+          · exact .inl h
+          · exact .inr ⟨s', List.mem_cons_of_mem _ hs', h, hh⟩
+        · rcases h2 with h | ⟨s', hs', h, hh⟩
+          · exact .inl h
+          · exact .inr ⟨s', List.mem_cons_of_mem _ hs', h, hh⟩
+        · intro hn s' hs'
+          rcases List.mem_cons.1 hs' with rfl | hm
+          · exact hw'
+          · exact h3 hn s' hm
+        · intro hn s' hs'
+          rcases List.mem_cons.1 hs' with rfl | hm
+          · exact .inr hr'
+          · exact h4 hn s' hm
+
+/-- **applicable_sound**: the statement used is one of the document's statements; it names the
+repository in its scopes, or it is the wildcard statement and then no statement names the repository -/
+theorem applicable_sound (stmts : List Stmt) (repo : Text) (s : Stmt) (h : applicable stmts repo = some s) :
+    s ∈ stmts ∧ ((wildcardScope ∉ s.scopes ∧ repo ∈ s.scopes) ∨
+      (wildcardScope ∈ s.scopes ∧ ∀ s' ∈ stmts, wildcardScope ∈ s'.scopes ∨ repo ∉ s'.scopes)) := by
+  unfold applicable at h
+  obtain ⟨h1, h2, h3, h4⟩ := selectLoop_spec repo stmts (none, none)
+  rcases hsel : selectLoop repo stmts (none, none) with ⟨wild, exact⟩
+  rw [hsel] at h h1 h2 h3 h4
+  cases exact with
+  | some x =>
+    simp only [Option.some.injEq] at h; subst h
+    rcases h2 with h | ⟨s', hs', h, hh⟩
+    · cases h
+    · simp only [Option.some.injEq] at h; subst h; exact ⟨hs', .inl hh⟩
+  | none =>
+    simp only at h; subst h
+    rcases h1 with h | ⟨s', hs', h, hh⟩
+    · cases h
+    · simp only [Option.some.injEq] at h; subst h
+      exact ⟨hs', .inr ⟨hh, h4 rfl⟩⟩
+
+/-- no statement applies exactly when no statement names the repository or the wildcard -/
+theorem applicable_none_iff (stmts : List Stmt) (repo : Text) :
+    applicable stmts repo = none ↔ ∀ s ∈ stmts, wildcardScope ∉ s.scopes ∧ repo ∉ s.scopes := by
+  unfold applicable
+  obtain ⟨h1, h2, h3, h4⟩ := selectLoop_spec repo stmts (none, none)
+  rcases hsel : selectLoop repo stmts (none, none) with ⟨wild, exact⟩
+  rw [hsel] at h1 h2 h3 h4
+  constructor
+  · intro h
+    cases exact with
+    | some x => cases h
+    | none =>
+      simp only at h; subst h
+      intro s hs
+      have a := h3 rfl s hs
+      rcases h4 rfl s hs with b | b
+      · exact absurd b a
+      · exact ⟨a, b⟩
+  · intro h
+    cases exact with
+    | some x =>
+      rcases h2 with hh | ⟨s', hs', _, _, hh⟩
+      · cases hh
+      · exact absurd hh (h s' hs').2
+    | none =>
+      cases wild with
+      | none => rfl
+      | some x =>
+        rcases h1 with hh | ⟨s', hs', _, hh⟩
+        · cases hh
+        · exact absurd hh (h s' hs').1
+
+/-! ### the whole property -/
+
+theorem nodupB_iff (l : List Text) : nodupB l = true ↔ l.Nodup := by
+  induction l with
+  | nil => simp [nodupB]
+  | cons a as ih => simp [nodupB, List.nodup_cons, ih, List.contains_iff_mem]
+
+/-- what the call log of the authenticity part looks like, for lists of any length -/
+theorem authenticity_log (w : World) (scheme : Scheme) (chain : List CertId) (l : List Text) :
+    let calls := (authenticity w scheme chain l).2
+    let want := requiredType scheme
+    (∀ c ∈ calls, c.ty = want ∧ c.name ∈ wantedNames want l) ∧
+    (calls.map (·.name)).Nodup ∧
+    (calls.map (·.name)).Sublist (wantedNames want l) ∧
+    (∀ n ∈ (calls.map (·.name)).dropLast, (w want n).isSome = true) := by
+  simp only
+  rw [authenticity_calls]
+  refine ⟨?_, loadLoop_nodup _ _ _ _, loadLoop_sublist _ _ _ _, ?_⟩
+  · intro c hc
+    obtain ⟨h1, h2, _, h4⟩ := loadLoop_calls w (requiredType scheme) l [] c hc
+    exact ⟨h1, (mem_wantedNames _ _ _).2 ⟨_, h2, h4⟩⟩
+  · intro n hn
+    rw [← List.map_dropLast] at hn
+    obtain ⟨c, hc, rfl⟩ := List.mem_map.1 hn
+    exact (loadLoop_prefix_ok w (requiredType scheme) l []).1 c hc
+
+/-- **C03**: every clause of `Holds` is true of the model's behaviour - for every world, every
+policy document, every trust store list of any length, both schemes -/
+theorem model_holds (i : Input) : Holds i (run i) = true := by
+  unfold Holds clauses run
+  cases happ : applicable i.statements i.repo with
+  | none => simp [Clauses.holds]
+  | some s =>
+    have hiff := auth_pass_iff (lookup i.world) i.scheme i.chain s.trustStores
+    have hall := auth_pass_loaded_all (lookup i.world) i.scheme i.chain s.trustStores
+    obtain ⟨l1, l2, l3, l4⟩ := authenticity_log (lookup i.world) i.scheme i.chain s.trustStores
+    simp only [Clauses.holds, List.all_cons, List.all_nil, Bool.and_true, Bool.and_eq_true]
+    generalize authenticity (lookup i.world) i.scheme i.chain s.trustStores = r at *
+    obtain ⟨pass, calls⟩ := r
+    simp only at hiff hall l1 l2 l3 l4
+    have hlog : (calls.all fun c => c.ty == requiredType i.scheme &&
+        (wantedNames (requiredType i.scheme) s.trustStores).contains c.name) = true := by
+      rw [List.all_eq_true]
+      intro c hc
+      obtain ⟨h1, h2⟩ := l1 c hc
+      simp [h1, List.contains_iff_mem.2 h2, h2]
+    have hnodup := (nodupB_iff _).2 l2
+    have hsub := List.isSublist_iff_sublist.2 l3
+    have hpre : ((calls.map (·.name)).dropLast.all (loadable (lookup i.world) (requiredType i.scheme))) = true := by
+      rw [List.all_eq_true]; intro n hn; exact l4 n hn
+    cases pass with
+    | false =>
+      have hno := (not_congr hiff).1 (by simp)
+      refine ⟨by simp, by simp, by simp, by simp, ?_, hlog, hnodup, hsub, hpre, by simp, by cases s.level <;> simp⟩
+      simp only [Bool.false_eq_true, if_false, Bool.or_eq_true, Bool.not_eq_true', beq_iff_eq, reduceCtorEq, or_false]
+      apply Bool.eq_false_iff.2
+      intro hc
+      simp only [Bool.and_eq_true, List.all_eq_true, List.any_eq_true] at hc
+      exact hno ⟨hc.1.1, fun n hn => hc.1.2 n hn, hc.2⟩
+    | true =>
+      obtain ⟨h1, h2, h3⟩ := hiff.1 rfl
+      have h1' : (s.trustStores.all fun e => (cut e).isSome) = true := List.all_eq_true.2 h1
+      have h2' : ((wantedNames (requiredType i.scheme) s.trustStores).all (loadable (lookup i.world) (requiredType i.scheme))) = true :=
+        List.all_eq_true.2 h2
+      have h3' : ((wantedNames (requiredType i.scheme) s.trustStores).any (confers (lookup i.world) (requiredType i.scheme) i.chain)) = true :=
+        List.any_eq_true.2 h3
+      refine ⟨by simp, by simp [h3'], by simp [h2'], by simp [h1'], by simp, hlog, hnodup, hsub, hpre, ?_, by simp⟩
+      simp only [if_true, bne_self_eq_false, Bool.false_or]
+      rw [List.all_eq_true]
+      intro n hn
+      have := hall rfl n hn
+      exact List.contains_iff_mem.2 (List.mem_map.2 ⟨_, this, rfl⟩)
+
+/-! ### the readable theorems (DESIGN.md section 5, C03)
+
+`w` is any world (function from (type, name) to a load result), `l` the `trustStores` list of the
+applicable statement - of any length, with duplicates, other types, malformed values. -/
+
+theorem mem_wanted_entry (scheme : Scheme) (l : List Text) (n : Text) :
+    n ∈ wantedNames (requiredType scheme) l ↔ entry (requiredType scheme) n ∈ l :=
+  mem_wantedNames_entry _ (requiredType_facts scheme).1 l n
+
+/-- **auth_pass_sound**: authenticity passes only if some certificate of the chain is held in a
+store `t:n` that the list names, with `t` the type the scheme requires, and every listed store
+of that type loaded -/
+theorem auth_pass_sound (w : World) (scheme : Scheme) (chain : List CertId) (l : List Text)
+    (h : (authenticity w scheme chain l).1 = true) :
+    (∃ c ∈ chain, ∃ n cs, entry (requiredType scheme) n ∈ l ∧
+        w (requiredType scheme) n = some cs ∧ c ∈ cs) ∧
+    (∀ n, entry (requiredType scheme) n ∈ l → ∃ cs, w (requiredType scheme) n = some cs) ∧
+    (∀ e ∈ l, Facts.c03Separator ∈ e) := by
+  obtain ⟨h1, h2, n, hn, hc⟩ := (auth_pass_iff w scheme chain l).1 h
+  obtain ⟨cs, hw, c, hcc, hx⟩ := (confers_iff _ _ _ _).1 hc
+  refine ⟨⟨c, hcc, n, cs, (mem_wanted_entry scheme l n).1 hn, hw, hx⟩, ?_, ?_⟩
+  · intro n' hn'
+    have := h2 n' ((mem_wanted_entry scheme l n').2 hn')
+    cases hw' : w (requiredType scheme) n' with
+    | none => simp [hw'] at this
+    | some cs' => exact ⟨cs', rfl⟩
+  · intro e he
+    have := h1 e he
+    by_cases hs : Facts.c03Separator ∈ e
+    · exact hs
+    · rw [(cut_none_iff e).2 hs] at this; cases this
+
+/-- **auth_pass_complete** (converse): if every value has a separator (as in every validated
+policy), every listed store of the required type loads and one of them holds a chain
+certificate, authenticity passes -/
+theorem auth_pass_complete (w : World) (scheme : Scheme) (chain : List CertId) (l : List Text)
+    (hsep : ∀ e ∈ l, Facts.c03Separator ∈ e)
+    (hload : ∀ n, entry (requiredType scheme) n ∈ l → ∃ cs, w (requiredType scheme) n = some cs)
+    (htrust : ∃ c ∈ chain, ∃ n cs, entry (requiredType scheme) n ∈ l ∧
+        w (requiredType scheme) n = some cs ∧ c ∈ cs) :
+    (authenticity w scheme chain l).1 = true := by
+  apply (auth_pass_iff w scheme chain l).2
+  refine ⟨?_, ?_, ?_⟩
+  · intro e he
+    cases hc : cut e with
+    | none => exact absurd (hsep e he) ((cut_none_iff e).1 hc)
+    | some x => rfl
+  · intro n hn
+    obtain ⟨cs, h⟩ := hload n ((mem_wanted_entry scheme l n).1 hn)
+    simp [h]
+  · obtain ⟨c, hc, n, cs, h1, h2, h3⟩ := htrust
+    exact ⟨n, (mem_wanted_entry scheme l n).2 h1, (confers_iff _ _ _ _).2 ⟨cs, h2, c, hc, h3⟩⟩
+
+/-- **other_types_never_loaded**: the trust store sees only calls `(t, n)` with `t` the type the
+scheme requires and `t:n` in the list - never `tsa`, never the other trust-anchor type, never an
+unlisted name - each store at most once, in list order -/
+theorem other_types_never_loaded (w : World) (scheme : Scheme) (chain : List CertId) (l : List Text) :
+    (∀ c ∈ (authenticity w scheme chain l).2,
+        c.ty = requiredType scheme ∧ c.ty ≠ Facts.c03TypeTSA ∧ entry (requiredType scheme) c.name ∈ l) ∧
+    ((authenticity w scheme chain l).2.map (·.name)).Nodup ∧
+    ((authenticity w scheme chain l).2.map (·.name)).Sublist (wantedNames (requiredType scheme) l) := by
+  obtain ⟨h1, h2, h3, _⟩ := authenticity_log w scheme chain l
+  refine ⟨?_, h2, h3⟩
+  intro c hc
+  obtain ⟨a, b⟩ := h1 c hc
+  exact ⟨a, by rw [a]; exact (requiredType_facts scheme).2.1, (mem_wanted_entry scheme l _).1 b⟩
+
+/-- **unlisted_irrelevant**: two worlds that agree on the listed stores of the required type
+give the same result and the same call log - whatever they hold in stores of another type
+(tsa included), in stores the list does not name, or in stores named only with another type -/
+theorem unlisted_irrelevant (w w' : World) (scheme : Scheme) (chain : List CertId) (l : List Text)
+    (h : ∀ n, entry (requiredType scheme) n ∈ l → w (requiredType scheme) n = w' (requiredType scheme) n) :
+    authenticity w scheme chain l = authenticity w' scheme chain l := by
+  unfold authenticity loadStores
+  rw [storeTypeOf_eq]
+  rw [loadLoop_congr w w' (requiredType scheme) l (fun n hn => h n ((mem_wanted_entry scheme l n).1 hn)) []]
+
+/-- **load_error_fails**: a listed store of the required type that cannot be loaded makes
+authenticity fail; the failed load is the last call (no later store is loaded) -/
+theorem load_error_fails (w : World) (scheme : Scheme) (chain : List CertId) (l : List Text) (n : Text)
+    (hl : entry (requiredType scheme) n ∈ l) (hw : w (requiredType scheme) n = none) :
+    (authenticity w scheme chain l).1 = false ∧
+    (∀ c ∈ (authenticity w scheme chain l).2, w (requiredType scheme) c.name = none →
+        (authenticity w scheme chain l).2.getLast? = some c) ∧
+    ((∀ e ∈ l, Facts.c03Separator ∈ e) →
+        ∃ c, (authenticity w scheme chain l).2.getLast? = some c ∧ w (requiredType scheme) c.name = none) := by
+  have hfail : (authenticity w scheme chain l).1 = false := by
+    apply Bool.eq_false_iff.2
+    intro hp
+    obtain ⟨cs, h⟩ := (auth_pass_sound w scheme chain l hp).2.1 n hl
+    rw [hw] at h; cases h
+  refine ⟨hfail, ?_, ?_⟩
+  · intro c hc hnone
+    have hpre := (loadLoop_prefix_ok w (requiredType scheme) l []).1
+    rw [authenticity_calls] at hc ⊢
+    generalize (loadLoop w (requiredType scheme) l []).1 = calls at *
+    have hne : calls ≠ [] := fun h => by rw [h] at hc; cases hc
+    rw [List.getLast?_eq_some_getLast hne]
+    have hsplit := List.dropLast_concat_getLast hne
+    rw [← hsplit] at hc
+    rcases List.mem_append.1 hc with h | h
+    · have := hpre c h; rw [hnone] at this; cases this
+    · simp only [List.mem_singleton] at h; rw [h]
+  · intro hsep
+    have herr := loadLoop_error w (requiredType scheme) l []
+    have hif := loadLoop_ok_if w (requiredType scheme) l []
+    rw [authenticity_calls]
+    unfold authenticity loadStores at hfail
+    rw [storeTypeOf_eq] at hfail
+    rcases hr : loadLoop w (requiredType scheme) l [] with ⟨calls, r⟩
+    rw [hr] at herr hif hfail
+    cases r with
+    | some ts =>
+      -- no error although a listed store does not load: impossible
+      have hok := loadLoop_ok w (requiredType scheme) l [] ts (by rw [hr])
+      have hpre := (loadLoop_prefix_ok w (requiredType scheme) l []).2 (by rw [hr]; rfl)
+      rw [hr] at hok hpre
+      obtain ⟨t', n', h1, h2⟩ := hok.1 _ hl (by simp)
+      rw [(cut_some_iff _ _ _).2 ⟨rfl, (requiredType_facts scheme).1⟩] at h1
+      simp only [Option.some.injEq, Prod.mk.injEq] at h1
+      obtain ⟨rfl, rfl⟩ := h1
+      have := hpre _ (h2 rfl)
+      rw [hw] at this; cases this
+    | none =>
+      rcases herr rfl with ⟨e, he, _, hc⟩ | h
+      · exact absurd (hsep e he) ((cut_none_iff e).1 hc)
+      · exact h
+
+/-! ### the same, for the whole scenario -/
+
+theorem lookup_some (ws : List Store) (t n : Text) (cs : List CertId) (h : lookup ws t n = some cs) :
+    ∃ st ∈ ws, st.ty = t ∧ st.name = n ∧ st.ok = true ∧ st.certs = cs := by
+  induction ws with
+  | nil => simp [lookup] at h
+  | cons st rest ih =>
+    unfold lookup at h
+    by_cases hk : st.ty = t ∧ st.name = n
+    · simp only [hk, and_self, if_true] at h
+      by_cases hok : st.ok = true
+      · simp only [hok, if_true, Option.some.injEq] at h
+        exact ⟨st, List.mem_cons_self, hk.1, hk.2, hok, h⟩
+      · simp [hok] at h
+    · simp only [hk, if_false] at h
+      obtain ⟨st', h1, h2⟩ := ih h
+      exact ⟨st', List.mem_cons_of_mem _ h1, h2⟩
+
+/-- **run_pass_sound**: in the whole scenario, an authenticity pass means: a statement of the
+document applies; some certificate of the chain is held by a store of the world whose type is the
+one the scheme requires and whose `type:name` is in THAT statement's list; and every store of that
+type the statement lists loaded -/
+theorem run_pass_sound (i : Input) (h : (run i).result = .pass) :
+    ∃ s, applicable i.statements i.repo = some s ∧ s ∈ i.statements ∧
+      (∃ c ∈ i.chain, ∃ st ∈ i.world, st.ty = requiredType i.scheme ∧ st.ok = true ∧ c ∈ st.certs ∧
+          entry st.ty st.name ∈ s.trustStores) ∧
+      (∀ n, entry (requiredType i.scheme) n ∈ s.trustStores →
+          ∃ cs, lookup i.world (requiredType i.scheme) n = some cs) := by
+  unfold run at h
+  cases happ : applicable i.statements i.repo with
+  | none => simp [happ] at h
+  | some s =>
+    simp only [happ] at h
+    have hp : (authenticity (lookup i.world) i.scheme i.chain s.trustStores).1 = true := by
+      cases hb : (authenticity (lookup i.world) i.scheme i.chain s.trustStores).1 <;> simp [hb] at h ⊢
+    obtain ⟨⟨c, hc, n, cs, h1, h2, h3⟩, h4, _⟩ := auth_pass_sound _ _ _ _ hp
+    obtain ⟨st, hst, a, b, d, e⟩ := lookup_some _ _ _ _ h2
+    refine ⟨s, rfl, (applicable_sound _ _ _ happ).1, ⟨c, hc, st, hst, a, d, by rw [e]; exact h3, by rw [a, b]; exact h1⟩, h4⟩
+
+/-- **run_accepted_only_if**: the signature is accepted only if authenticity passed or the
+applicable statement's level merely logs authenticity (audit) -/
+theorem run_accepted_only_if (i : Input) (h : (run i).accepted = true) :
+    (run i).result = .pass ∨ ∃ s, applicable i.statements i.repo = some s ∧ s.level = .audit := by
+  unfold run at h ⊢
+  cases happ : applicable i.statements i.repo with
+  | none => simp [happ] at h
+  | some s =>
+    simp only [happ] at h ⊢
+    cases hb : (authenticity (lookup i.world) i.scheme i.chain s.trustStores).1
+    · simp only [hb, Bool.false_or, beq_iff_eq] at h
+      exact .inr ⟨s, rfl, h⟩
+    · simp
+
+/-- **run_unlisted_irrelevant**: changing the world anywhere but at the stores `(required type, n)`
+with `type:n` listed by the applicable statement - that is: in stores of another type, in stores
+no statement lists, in stores only OTHER statements list - changes neither result nor call log -/
+theorem run_unlisted_irrelevant (i : Input) (world' : List Store) (s : Stmt)
+    (happ : applicable i.statements i.repo = some s)
+    (h : ∀ n, entry (requiredType i.scheme) n ∈ s.trustStores →
+      lookup i.world (requiredType i.scheme) n = lookup world' (requiredType i.scheme) n) :
+    run { i with world := world' } = run i := by
+  unfold run
+  simp only [happ]
+  rw [unlisted_irrelevant (lookup world') (lookup i.world) i.scheme i.chain s.trustStores (fun n hn => (h n hn).symm)]
+
+/-- **run_other_statements_irrelevant**: two documents whose applicable statements carry the same
+list and level behave alike, whatever their other statements list -/
+theorem run_other_statements_irrelevant (i : Input) (stmts' : List Stmt) (s s' : Stmt)
+    (happ : applicable i.statements i.repo = some s) (happ' : applicable stmts' i.repo = some s')
+    (hl : s'.trustStores = s.trustStores) (hv : s'.level = s.level) :
+    run { i with statements := stmts' } = run i := by
+  unfold run
+  simp only [happ, happ', hl, hv]
+
+/-! ### non-vacuity -/
+
+section examples
+
+def exWorld : List Store :=
+  [ ⟨"ca".toList, "alpha".toList, true, [2]⟩,                  -- the signer's root, as a CA store
+    ⟨"signingAuthority".toList, "alpha".toList, true, [2]⟩,    -- same name under another type
+    ⟨"tsa".toList, "alpha".toList, true, [2]⟩,
+    ⟨"ca".toList, "beta".toList, false, []⟩,                   -- a store that does not load
+    ⟨"ca".toList, "gamma".toList, true, [6]⟩ ]                 -- an unrelated certificate
+
+def exInput (scheme : Scheme) (l : List String) : Input :=
+  { scheme := scheme, chain := [0, 1, 2], repo := "reg.example/a".toList, world := exWorld,
+    statements := [ ⟨["reg.example/a".toList], l.map String.toList, .strict⟩,
+                    ⟨["*".toList], ["ca:alpha".toList, "signingAuthority:alpha".toList], .strict⟩ ],
+    backend := "mem", format := "jws" }
+
+/-- trusted: the root is in the listed ca store -/
+example : run (exInput .x509 ["ca:gamma", "tsa:alpha", "ca:alpha", "ca:gamma"]) =
+    { result := .pass, calls := [⟨"ca".toList, "gamma".toList⟩, ⟨"ca".toList, "alpha".toList⟩], accepted := true } := by decide
+/-- the same certificate under the same name but the wrong types confers nothing, and is never loaded -/
+example : run (exInput .x509 ["signingAuthority:alpha", "tsa:alpha", "ca:gamma"]) =
+    { result := .fail, calls := [⟨"ca".toList, "gamma".toList⟩], accepted := false } := by decide
+/-- the signing authority scheme reads the signingAuthority store of that name -/
+example : run (exInput .signingAuthority ["ca:alpha", "signingAuthority:alpha"]) =
+    { result := .pass, calls := [⟨"signingAuthority".toList, "alpha".toList⟩], accepted := true } := by decide
+/-- a store listed only by the other (wildcard) statement confers nothing -/
+example : (run (exInput .x509 ["ca:gamma"])).result = .fail := by decide
+/-- a listed store that does not load fails the validation although a later store would confer trust -/
+example : run (exInput .x509 ["ca:beta", "ca:alpha"]) =
+    { result := .fail, calls := [⟨"ca".toList, "beta".toList⟩], accepted := false } := by decide
+/-- `Holds` accepts the model's observation ... -/
+example : Holds (exInput .x509 ["signingAuthority:alpha", "ca:gamma"])
+    { result := .fail, calls := [⟨"ca".toList, "gamma".toList⟩], accepted := false } = true := by decide
+/-- ... and refuses wrong ones: trust from a store of the wrong type, -/
+example : Holds (exInput .x509 ["signingAuthority:alpha", "ca:gamma"])
+    { result := .pass, calls := [⟨"ca".toList, "gamma".toList⟩], accepted := true } = false := by decide
+/-- a load of a store of another type, -/
+example : Holds (exInput .x509 ["signingAuthority:alpha", "ca:gamma"])
+    { result := .fail, calls := [⟨"signingAuthority".toList, "alpha".toList⟩, ⟨"ca".toList, "gamma".toList⟩], accepted := false } = false := by decide
+/-- a failed load that was ignored, -/
+example : Holds (exInput .x509 ["ca:beta", "ca:alpha"])
+    { result := .pass, calls := [⟨"ca".toList, "beta".toList⟩, ⟨"ca".toList, "alpha".toList⟩], accepted := true } = false := by decide
+/-- and acceptance without authenticity under an enforcing level -/
+example : Holds (exInput .x509 ["ca:gamma"])
+    { result := .fail, calls := [⟨"ca".toList, "gamma".toList⟩], accepted := true } = false := by decide
+
+end examples
 
 end NotationModel.C03
